@@ -1,5 +1,5 @@
 #!/usr/bin/env python3
-"""tools/seed_table.py  — prints the markdown table of /verif/seeded/*/meta.json (DESIGN.md 11.8)."""
+"""tools/seed_table.py  — prints the markdown table of /verif/seeded/*/meta.json (DESIGN.md 11.7)."""
 import json, os, glob
 base = os.path.join(os.path.dirname(os.path.dirname(os.path.abspath(__file__))), "seeded")
 print("| seed | property | change (one line) | needs to manifest | caught by | signature | history |")
